@@ -68,34 +68,52 @@ structure CsfIn where
   bips : Nat
   sameDenom : Bool  -- intermediary denom = fee denom (then `convAmt` is unused, nav is 1:1)
 
-/-- step 2 of the fee: Σ ⌊c·p·10^18 / a⌋ over the "other" denoms, as a raw Dec. -/
+/-- step 2 of the fee: Σ ⌊c·p·10^18 / a⌋ over the "other" denoms, as a raw Dec.
+(`coin.Amount.Mul(nav.Price.Amount)` panics above 256 bits; `LegacyDec.Add` asserts the Dec range.) -/
 def csfOthers : List (Int × Int × Int) → Int → Except AErr Int
-  | [], acc => pure acc
-  | (c, p, a) :: rest, acc => do
-    let cp ← mul256 c p
-    if a = 0 then throw .divzero
-    let d := (cp * decOne).tdiv a
-    let acc' := acc + d
-    if !fitsDec acc' then throw .overflow
-    csfOthers rest acc'
+  | [], acc => .ok acc
+  | (c, p, a) :: rest, acc =>
+    if !fits256 (c * p) then .error .overflow
+    else if a = 0 then .error .divzero
+    else
+      let acc' := acc + ((c * p) * decOne).tdiv a
+      if !fitsDec acc' then .error .overflow else csfOthers rest acc'
+
+/-- `convDecAmt.TruncateInt()`, plus one unless `IsInteger()`. -/
+def convRoundUp (convDec : Int) : Except AErr Int :=
+  let trunc := convDec.tdiv decOne
+  if !fits256 trunc then .error .overflow
+  else if convDec.tmod decOne ≠ 0 then add256 trunc 1 else .ok trunc
+
+/-- second loop: the intermediary total converted to the fee denom with `QuoIntRoundUp`. -/
+def toFeeDenom (convInt navP navA : Int) : Except AErr Int :=
+  if convInt = 0 then .ok 0
+  else if navA = 0 then .error .divzero
+  else if !fits256 (convInt * navP) then .error .overflow
+  else .ok (quoIntRoundUp (convInt * navP) navA)
+
+/-- `QuoIntRoundUp(total.MulRaw(bips), 20000)`. -/
+def applyBips (total : Int) (bips : Nat) : Except AErr Int :=
+  if !fits256 (total * (bips : Int)) then .error .overflow
+  else .ok (quoIntRoundUp (total * (bips : Int)) 20000)
 
 /-- The arithmetic of `CalculateCommitmentSettlementFee` once navs are looked up.
 Returns `(convertedIntermediaryAmount, feeDenomTotal, exchangeFee)`. -/
-def commitmentFee (i : CsfIn) : Except AErr (Int × Int × Int) := do
+def commitmentFee (i : CsfIn) : Except AErr (Int × Int × Int) :=
   let base := if i.sameDenom then 0 else i.convAmt * decOne
-  if !fitsDec base then throw .overflow
-  let convDec ← csfOthers i.others base
-  let trunc := convDec.tdiv decOne
-  if !fits256 trunc then throw .overflow
-  let convInt ← if convDec.tmod decOne ≠ 0 then add256 trunc 1 else pure trunc
-  -- second loop over ConvertedTotal
-  let asFee ← (do
-      if convInt = 0 then pure 0 else
-      if i.navA = 0 then throw .divzero
-      let prod ← mul256 convInt i.navP
-      pure (quoIntRoundUp prod i.navA))
-  let total ← add256 i.feeAmt asFee
-  let tb ← mul256 total (i.bips : Int)
-  pure (convInt, total, quoIntRoundUp tb 20000)
+  if !fitsDec base then .error .overflow else
+  match csfOthers i.others base with
+  | .error e => .error e
+  | .ok convDec =>
+    match convRoundUp convDec with
+    | .error e => .error e
+    | .ok convInt =>
+      match toFeeDenom convInt i.navP i.navA with
+      | .error e => .error e
+      | .ok asFee =>
+        if !fits256 (i.feeAmt + asFee) then .error .overflow else
+        match applyBips (i.feeAmt + asFee) i.bips with
+        | .error e => .error e
+        | .ok fee => .ok (convInt, i.feeAmt + asFee, fee)
 
 end PvModel.Fees
